@@ -501,6 +501,12 @@ func (ex *Exec) call(in *ssa.Call, cc *ssa.CallCommon, r Term) {
 		setRes(Val{K: KTuple})
 		return
 	}
+	if name == "fmt.Sprintf" {
+		if v, ok := ex.sprintfModel(cc, r); ok {
+			setRes(v)
+			return
+		}
+	}
 	if fc := ex.contractFor(fn); fc != nil && !(fc.Options["inline"] != "" && fn.Blocks != nil) {
 		setRes(ex.applyContract(fc, fn, cc, Val{}, args, r, pos, resType()))
 		return
@@ -1043,4 +1049,121 @@ func (ex *Exec) copyB(cc *ssa.CallCommon, r Term) Val {
 	}
 	unsup("copy into a slice that is not backed by a local byte array")
 	return Val{}
+}
+
+// sprintfModel: fmt.Sprintf with a constant format made of literal text and
+// simple verbs is modelled at the level of content keys (A-STD-FMT): the
+// result's key is the left-associated catkey of the keys of its pieces; a %s
+// of a string is that string, %s of a git.OID is its hex form (oidHexK), any
+// other verb/argument is an uninterpreted function of the argument.
+func (ex *Exec) sprintfModel(cc *ssa.CallCommon, r Term) (Val, bool) {
+	c := ex.c
+	k, ok := cc.Args[0].(*ssa.Const)
+	if !ok || k.Value == nil {
+		return Val{}, false
+	}
+	format := constant.StringVal(k.Value)
+	// collect the boxed arguments from the varargs array
+	var boxed []ssa.Value
+	if len(cc.Args) > 1 {
+		sl, ok := cc.Args[1].(*ssa.Slice)
+		if !ok {
+			if kc, isC := cc.Args[1].(*ssa.Const); !(isC && kc.Value == nil) {
+				return Val{}, false
+			}
+		} else {
+			al, ok := sl.X.(*ssa.Alloc)
+			if !ok || al.Referrers() == nil {
+				return Val{}, false
+			}
+			n := int(al.Type().Underlying().(*types.Pointer).Elem().Underlying().(*types.Array).Len())
+			boxed = make([]ssa.Value, n)
+			for _, ref := range *al.Referrers() {
+				ia, ok := ref.(*ssa.IndexAddr)
+				if !ok || ia.Referrers() == nil {
+					continue
+				}
+				ik, ok := ia.Index.(*ssa.Const)
+				if !ok {
+					return Val{}, false
+				}
+				for _, r2 := range *ia.Referrers() {
+					if st, ok := r2.(*ssa.Store); ok {
+						boxed[int(ik.Int64())] = st.Val
+					}
+				}
+			}
+		}
+	}
+	var keys []Term
+	argi := 0
+	lit := ""
+	flush := func() {
+		if lit != "" {
+			keys = append(keys, c.strKey(c.strConst(lit)))
+			lit = ""
+		}
+	}
+	for i := 0; i < len(format); i++ {
+		if format[i] != '%' {
+			lit += string(format[i])
+			continue
+		}
+		if i+1 < len(format) && format[i+1] == '%' {
+			lit += "%"
+			i++
+			continue
+		}
+		// verb: %[flags][width][.prec]verb
+		j := i + 1
+		for j < len(format) && strings.ContainsRune("+-# 0123456789.", rune(format[j])) {
+			j++
+		}
+		if j >= len(format) || argi >= len(boxed) || boxed[argi] == nil {
+			return Val{}, false
+		}
+		verb := format[i : j+1]
+		flush()
+		a := boxed[argi]
+		argi++
+		var xt types.Type
+		var xv Val
+		if mi, ok := a.(*ssa.MakeInterface); ok {
+			xt = mi.X.Type()
+			xv = ex.val(mi.X)
+		} else {
+			xt = a.Type()
+			xv = ex.val(a)
+		}
+		switch {
+		case verb == "%s" && isString(xt):
+			keys = append(keys, c.strKey(xv))
+		case verb == "%s" && typeKey(xt) == modulePath+"/git.OID":
+			c.declFun("spec_oidHexK", []string{bvSort(160)}, SKey)
+			keys = append(keys, app("spec_oidHexK", leaves(xv)[0]))
+		default:
+			fn := "|fmt " + verb + " " + typeKey(xt) + "|"
+			ls := leaves(xv)
+			var sorts []string
+			for _, s2 := range c.leafSorts(xt) {
+				sorts = append(sorts, s2)
+			}
+			c.declFun(fn, sorts, SKey)
+			keys = append(keys, app(fn, ls...))
+		}
+		i = j
+	}
+	flush()
+	res := c.freshVal(types.Typ[types.String], ex.nm("sprintf"))
+	c.assume(ex.v.wfAssume(c, res))
+	if len(keys) > 0 {
+		c.declFun("catkey", []string{SKey, SKey}, SKey)
+		t := keys[0]
+		for _, kx := range keys[1:] {
+			t = app("catkey", t, kx)
+		}
+		c.assume(eq(c.strKey(res), t))
+	}
+	c.trusted["A-STD-FMT: fmt.Sprintf with a constant format is modelled on content keys (%s of a string is the string, %s of an OID its hex form)"] = true
+	return res, true
 }
